@@ -3,7 +3,7 @@ CONSTANTS
   NT = 3
   Prog <- CachedProg
   Kind = "cached"
-  Sizes = {80, 100}
+  Sizes = {1, 2, 3}
   MaxResize = 0
   Variant = "code"
 INVARIANT BodyOnce
